@@ -465,6 +465,12 @@ pub fn items(prop: &str, tier: &str) -> Vec<Item> {
                     }
                 }
             }
+            // a seccomp profile that predates openat2 and the new mount API (they answer EPERM): cold, so that the probes run
+            {
+                let p: Vec<Scenario> = all.iter().filter(|s| s.backend == "E").step_by(if th { 2 } else { 7 }).cloned().map(|mut s| { s.backend = "P".into(); s.name = s.name.replacen("E/", "P/", 1); s }).collect();
+                bundle("cold-oldprofile", p.clone(), 30, false, 0, &mut v);
+                bundle("warm-oldprofile", p, 30, true, 0, &mut v);
+            }
             // cold lazies and "no new mount API" on a smaller family
             let small: Vec<Scenario> = all.iter().step_by(if th { 2 } else { 9 }).cloned().collect();
             bundle("cold", small.clone(), 30, false, 0, &mut v);
